@@ -73,6 +73,8 @@ def run(ctx, chk):
                    file=e.fn.file, function=e.fn.qual, line=e.node.lineno, text=e.text)
     r4(ctx, chk)
     r5(ctx, chk)
+    from .c08 import r5 as recovery_rule
+    recovery_rule(ctx, chk, "C09.R6")
 
 
 def _positive_atoms(f, pol=True):
@@ -142,15 +144,56 @@ def r5(ctx, chk):
                    key={"function": fn.key, "construct": "time-only comparison " + ("past" if minus else "future")},
                    file=fn.file, function=fn.qual, line=n.lineno)
     chk.floor(rule, found, 2, "time-only comparisons against the reference instant")
-    # month-without-year and two-digit-year comparisons: now < candidate -> past moves back, else future moves forward
+    # month-without-year and two-digit-year: the shift is decided by comparing the whole reference instant with the
+    # whole candidate (comparing only a component, e.g. the years, mis-orders dates inside the same year)
+    order, effs = P.effects(ctx)
+    dv = fn.params()[1]
     n2 = 0
-    for n in iter_own_nodes(fn.node):
-        if isinstance(n, ast.If) and ast.unparse(n.test) == "self.now < dateobj":
-            n2 += 1
-            b = ast.unparse(ast.Module(body=n.body, type_ignores=[]))
-            o = ast.unparse(ast.Module(body=n.orelse, type_ignores=[]))
-            ok = ("past" in b and "year -" in b) and ("future" in o and "year +" in o)
-            chk.ob(rule, "L%d candidate after the reference time: past moves a year/century back; otherwise future moves forward" % n.lineno, ok,
-                   "branches swapped", key={"function": fn.key, "construct": "year comparison L-order %d" % n2},
-                   file=fn.file, function=fn.qual, line=n.lineno)
-    chk.floor(rule + ".year", n2, 2, "year/century comparisons")
+    for e in effs:
+        if e.kind != "shift" or e.field != "year" or e.sign == "?":
+            continue
+        cmp_atoms = [a for a in G.atoms_of(e.guard, ("free",)) if "self.now" in a and dv in a]
+        n2 += 1
+        ok = bool(cmp_atoms)
+        bad = []
+        for a in cmp_atoms:
+            try:
+                c = ast.parse(a, mode="eval").body
+            except SyntaxError:
+                ok = False
+                continue
+            sides = [c.left] + list(c.comparators) if isinstance(c, ast.Compare) else []
+            txt = sorted(ast.unparse(x) for x in sides)
+            if txt != sorted(["self.now", dv]):
+                ok = False
+                bad.append(a)
+        chk.ob(rule, "L%d `%s` is decided by comparing self.now with the whole candidate" % (e.node.lineno, e.text[:40]), ok,
+               "the deciding comparison is %s: it looks at a component only (or is missing), so a candidate later in the same "
+               "year than the reference is not recognised as lying in the future" % (bad or cmp_atoms or "absent"),
+               key={"function": fn.key, "construct": "full-instant comparison for " + " ".join(e.text.split())[:50]},
+               file=fn.file, function=fn.qual, line=e.node.lineno)
+        # direction: past shifts happen when the candidate is after the reference, future shifts otherwise
+        for a in cmp_atoms:
+            c = ast.parse(a, mode="eval").body
+            if isinstance(c, ast.Compare) and len(c.ops) == 1 and ast.unparse(c.left) == "self.now" and isinstance(c.ops[0], ast.Lt):
+                pos = _polarity_of(e.guard, a)
+                want = True if e.sign == "-" else False
+                chk.ob(rule, "L%d `%s`: moves %s exactly when the candidate lies %s the reference" % (
+                    e.node.lineno, e.text[:30], "back" if e.sign == "-" else "forward", "after" if want else "not after"),
+                    pos == want, "branch polarity of `%s` is %s" % (a, pos),
+                    key={"function": fn.key, "construct": "comparison direction for " + " ".join(e.text.split())[:50]},
+                    file=fn.file, function=fn.qual, line=e.node.lineno)
+    chk.floor(rule + ".year", n2, 4, "year/century shifts with a reference comparison")
+
+
+def _polarity_of(f, atom, pol=True):
+    """True/False if the free atom occurs positively/negatively in the conjunction, None if absent/both"""
+    k = f[0]
+    if k == "free":
+        return pol if f[1] == atom else None
+    if k == "not":
+        return _polarity_of(f[1], atom, not pol)
+    if k in ("and", "or"):
+        res = {_polarity_of(x, atom, pol) for x in f[1:]} - {None}
+        return res.pop() if len(res) == 1 else None
+    return None
